@@ -71,7 +71,7 @@ func convertToParagraph(data reflect.Value) (*Paragraph, error) {
 	paragraphType := reflect.TypeOf(Paragraph{})
 	var foundParagraph Paragraph = Paragraph{}
 	omitted := map[string]bool{}
-	known := map[string]bool{}
+	known := []string{}
 
 	for i := 0; i < data.NumField(); i++ {
 		field := data.Field(i)
@@ -105,7 +105,7 @@ func convertToParagraph(data reflect.Value) (*Paragraph, error) {
 			return nil, err
 		}
 
-		known[paragraphKey] = true
+		known = append(known, paragraphKey)
 		required := fieldType.Tag.Get("required") == "true"
 		if data == "" && !required {
 			omitted[paragraphKey] = true
@@ -138,12 +138,15 @@ func convertToParagraph(data reflect.Value) (*Paragraph, error) {
 }
 
 // The struct's spelling of a field name: field names are not case-sensitive,
-// and `known` holds the names of the struct's fields.
-func structSpelling(known map[string]bool, key string) string {
-	if known[key] {
-		return key
+// and `known` holds the names of the struct's fields, in the struct's order
+// (the first one wins where two of them differ in letter case only).
+func structSpelling(known []string, key string) string {
+	for _, name := range known {
+		if name == key {
+			return key
+		}
 	}
-	for name := range known {
+	for _, name := range known {
 		if equalFoldASCII(name, key) {
 			return name
 		}
